@@ -151,6 +151,29 @@ class Base:
             self.stats["remove-then-add"] += 1
         self.edited()
 
+    def op_add_invalid(self, op):
+        """an add the block has to refuse for a reason that has nothing to do with channels (wrong length, wrong kind): nothing may stay
+        behind - in particular not the channel number it would have got, which the very next (valid) add asks for"""
+        bad = self.bad_items()
+        if not bad:
+            return
+        kind, obj = bad[op.get("idx", 0) % len(bad)]
+        if op["mode"] == "free":
+            ch = self.pick_channel(op, True)
+            self.expect_refusal(f"add-invalid-{kind}", lambda: self.do_add(obj, ch), (Exception,), f"adding {kind} with the free channel {ch}")
+            item, tag = self.fresh()
+            ok, _ = self.ctx.must(lambda: self.do_add(item, ch), f"add-after-refused-{kind}", f"adding a valid item with channel {ch}, which a refused add had asked for just before")
+            if ok:
+                self.register(item, ch, tag)
+                self.stats["explicit"] += 1
+                self.check(f"add-after-refused-{kind}")
+        else:
+            self.expect_refusal(f"add-invalid-{kind}", lambda: self.do_add(obj, None), (Exception,), f"adding {kind} with an automatic channel")
+        self.stats["invalid-adds-refused"] = self.stats.get("invalid-adds-refused", 0) + 1
+
+    def bad_items(self):
+        return []
+
     def drop_model(self, idx):
         self.removed_items.append(self.items[self.model[idx][1]])
         self.freed.append(self.model[idx][0])
@@ -250,9 +273,19 @@ class EmgInterp(Base):
             out.append((g["channel"], int(lab[1:]) if lab.startswith("s") else lab))
         return out
 
+    def bad_items(self):
+        from basictdf.tdfEMG import EMGTrack
+        from basictdf.tdfData3D import MarkerTrack
+
+        n = int(self.b.nSamples)
+        return [("wrong-length", EMGTrack("long", np.zeros(n + 1, dtype="<f4"))), ("wrong-length", EMGTrack("short", np.zeros(max(0, n - 1), dtype="<f4"))),
+                ("wrong-kind", MarkerTrack("m", np.zeros((n, 3), dtype="<f4"))), ("wrong-kind", None), ("wrong-kind", "signal")]
+
     def apply(self, op):
         if op["op"] == "add":
             self.op_add(op)
+        elif op["op"] == "add-invalid":
+            self.op_add_invalid(op)
         elif op["op"] == "readd":
             self.op_readd(op)
         elif op["op"] == "remove":
@@ -269,6 +302,11 @@ class EmgInterp(Base):
 
 class PlatCalInterp(Base):
     t = "platCal"
+
+    def bad_items(self):
+        from basictdf.tdfEMG import EMGTrack
+
+        return [("wrong-kind", None), ("wrong-kind", "platform"), ("wrong-kind", EMGTrack("e", np.zeros(2, dtype="<f4"))), ("wrong-kind", ("p", (1, 2)))]
 
     def make_block(self, init):
         from basictdf.tdfForcePlatformsCalibration import ForcePlatformsCalibrationDataBlock
@@ -334,6 +372,8 @@ class PlatCalInterp(Base):
             self.op_add(op)
         elif o == "readd":
             self.op_readd(op)
+        elif o == "add-invalid":
+            self.op_add_invalid(op)
         elif o == "add-twin":
             # a distinct object whose content equals an item already in the block
             if not self.model:
@@ -361,6 +401,18 @@ class PlatCalInterp(Base):
                 if ok:
                     self.drop_model(idx)
                     self.check(f"remove-{tgt}")
+            elif tgt == "negative-index" and self.model:
+                # the block takes an index like a list does: -1 is the last platform (and its channel goes with it)
+                n = len(self.model)
+                idx = op["idx"] % n
+                ok, _ = self.ctx.must(lambda: self.b.remove_platform(idx - n), "remove-negative-index", f"removing platform #{idx} of {n} as index {idx - n}")
+                if ok:
+                    self.drop_model(idx)
+                    self.stats["negative-index-removals"] = self.stats.get("negative-index-removals", 0) + 1
+                    self.check("remove-negative-index")
+            elif tgt == "negative-index-out-of-range":
+                n = len(self.model)
+                self.expect_refusal("remove-bad-negative-index", lambda: self.b.remove_platform(-n - 1 - op["idx"] % 3), (Exception,), f"removing index < -{n}")
             elif tgt == "index-out-of-range":
                 n = len(self.model)
                 self.expect_refusal("remove-bad-index", lambda: self.b.remove_platform(n + op["idx"] % 3), (Exception,), f"removing index >= {n}")
@@ -477,6 +529,9 @@ class PlatDataInterp(Base):
     t = "platData"
     N = 2
 
+    def bad_items(self):
+        return [("wrong-kind", None), ("wrong-kind", "platform"), ("wrong-kind", np.zeros((2, 6), dtype="<f4"))]
+
     def make_block(self, init):
         from basictdf.tdfForcePlatformsData import ForcePlatformsDataBlock
         if init["start"] == "decoded":
@@ -524,6 +579,8 @@ class PlatDataInterp(Base):
         o = op["op"]
         if o == "add":
             self.op_add(op)
+        elif o == "add-invalid":
+            self.op_add_invalid(op)
         elif o == "assign":
             k = 1 + op["idx"] % 3
             new = [self.fresh() for _ in range(k)]
@@ -574,17 +631,19 @@ def ops(t):
     idx = st.integers(0, 1000)
     add = st.fixed_dictionaries({"op": st.just("add"), "mode": st.sampled_from(["auto", "auto", "free", "free", "taken"]), "ch": ch, "np": st.booleans(), "reuse": st.booleans()})
     readd = st.fixed_dictionaries({"op": st.just("readd"), "mode": st.sampled_from(["auto", "free"]), "idx": idx, "ch": ch})
+    bad = st.fixed_dictionaries({"op": st.just("add-invalid"), "mode": st.sampled_from(["auto", "free", "free"]), "ch": ch, "idx": idx})
     if t == "emg":
         rem = st.fixed_dictionaries({"op": st.just("remove"), "target": st.sampled_from(["present", "present", "absent"]), "idx": idx})
-        return st.one_of(add, add, rem, rem, readd)
+        return st.one_of(add, add, rem, rem, readd, bad)
     if t == "platCal":
-        rem = st.fixed_dictionaries({"op": st.just("remove"), "target": st.sampled_from(["index", "item", "index-out-of-range", "absent-item"]), "idx": idx})
+        rem = st.fixed_dictionaries({"op": st.just("remove"), "target": st.sampled_from(["index", "item", "index-out-of-range", "absent-item", "negative-index", "negative-index",
+                                                                                         "negative-index-out-of-range"]), "idx": idx})
         many = st.fixed_dictionaries({"form": st.sampled_from(["list", "tuple", "generator", "zip", "iter", "dict-items"]),
                                       "op": st.sampled_from(["remove-many", "add-many", "assign", "assign", "add-many-unequal"]), "mode": st.sampled_from(["free", "auto", "collide"]), "idx": idx, "ch": ch})
         twin = st.fixed_dictionaries({"op": st.just("add-twin"), "idx": idx, "ch": ch})
-        return st.one_of(add, add, rem, rem, rem, many, readd, twin)
+        return st.one_of(add, add, rem, rem, rem, many, readd, twin, bad)
     assign = st.fixed_dictionaries({"op": st.just("assign"), "mode": st.sampled_from(["valid", "valid", "collide"]), "idx": idx})
-    return st.one_of(add, add, add, assign)
+    return st.one_of(add, add, add, assign, bad)
 
 
 INTERP = {"emg": EmgInterp, "platCal": PlatCalInterp, "platData": PlatDataInterp}
